@@ -123,3 +123,26 @@ package tsi
 //@ func (*MergeSetIndex).GetDeletedTSIDs
 //@   trusted atomic load of the current deleted set
 //@   assigns nothing
+
+// ================================================================ C10: the persisted bloom filters of the series table
+// The per-queue bloom filters answer "this series key has certainly not been seen"; a wrong "not seen" mints a second id
+// for an existing series. They are flushed under <index path>/mergeset/<bloomfilter dir>; after a reopen they must be
+// loaded from that very directory: the directory whose presence enables them, the directory OpenBloomFilter reads and
+// the table directory are one and the same <index path>/mergeset.
+//@ prop C10
+//@ func (*MergeSetIndex).Open
+//@   ghost tp string = ""
+//@   ghost joined bool = false
+//@   call Join
+//@     requires [table_dir_is_path_slash_mergeset] len(arg0) == 2 && arg0[0] == idx.path && arg0[1] == MergeSetDirName
+//@     set tp = ret0
+//@     set joined = true
+//@   call (*MergeSetIndex).bloomFilterEnable
+//@     requires [enable_test_on_table_dir] joined && arg0 == tp
+//@   call OpenBloomFilter
+//@     requires [filters_read_where_they_are_flushed] joined && arg0 == tp
+//@   call OpenTable
+//@     requires [table_dir] joined && arg0 == tp
+//@ func (*MergeSetIndex).flushBloomFilter
+//@   call Join
+//@     requires [flush_dir_is_path_slash_mergeset_slash_bf] len(arg0) == 3 && arg0[0] == idx.path && arg0[1] == MergeSetDirName && arg0[2] == mergeset.BloomFilterDirName
